@@ -93,6 +93,11 @@ Theorem C08_nothing_dropped : forall t w, parse_raw t = Ok w ->
 Proof. intros t w H. split; [exact (nothing_dropped t w H)|exact (parse_entries t w H)]. Qed.
 Print Assumptions C08_nothing_dropped.
 
+(* (6a) ... and TrimSpace removes white space only *)
+Theorem C08_trim_removes_only_blanks : forall x, exists a b, all_space a /\ all_space b /\ x = a ++ trim x ++ b.
+Proof. exact trim_only_blanks. Qed.
+Print Assumptions C08_trim_removes_only_blanks.
+
 (* (6') in particular a definition line without comment character and continuation backslash
    is in the stored texts in full *)
 Theorem C08_definition_line_kept : forall t w ln, parse_raw t = Ok w ->
